@@ -9215,6 +9215,10 @@ class SVG(Group):
                             values[SVG_ATTR_TRANSFORM] = viewport_transform
                         values["viewport_transform"] = values[SVG_ATTR_TRANSFORM]
                         width, height = s.viewbox.width, s.viewbox.height
+                    # The svg element's own geometry is not inherited by its content.
+                    for key in (SVG_ATTR_X, SVG_ATTR_Y, SVG_ATTR_WIDTH, SVG_ATTR_HEIGHT):
+                        if key in values:
+                            del values[key]
                     if context is None:
                         stack[-1] = (context, values)
                     if context is not None:
